@@ -1,12 +1,13 @@
 #!/bin/sh
 # usage: try_mutant.sh <patch.diff> <PROP> [run.py args...]
-# applies the patch to /repo, runs the property's check, always restores /repo.
+# Applies the patch in a scratch worktree of /repo's HEAD (so /repo itself is never touched while
+# other runs read it) and runs the property's check against that tree (VF_REPO).
 P=$1; PROP=$2; shift 2
-cd /repo || exit 9
-git diff --quiet || { echo "/repo has uncommitted changes"; exit 9; }
-git apply "$P" || { echo "patch does not apply"; exit 9; }
-cd /verif && python3 run.py $PROP --no-evidence "$@"
+WT=${VF_MUTWT:-/tmp/vf_mutwt.$$}
+git -C /repo worktree add --detach "$WT" HEAD >/dev/null 2>&1 || { echo "cannot create worktree"; exit 9; }
+trap 'git -C /repo worktree remove --force "$WT" >/dev/null 2>&1' EXIT
+(cd "$WT" && git apply "$P") || { echo "patch does not apply"; exit 9; }
+cd /verif && VF_REPO="$WT" python3 run.py $PROP --no-evidence "$@"
 rc=$?
-git -C /repo checkout -- .
 echo "try_mutant rc=$rc"
 exit $rc
